@@ -13,6 +13,7 @@ package main
 //   s:<srv>:<suites>      server CipherSuites
 //   a:<srv>:<auth 0..4>   server ClientAuth
 //   d:<srv>:<0|1>         server SessionTicketsDisabled
+//   v:<srv>:<hhhh>        server MaxVersion (TLS mode)
 //   z:<0|1>               client SessionTicketsDisabled
 //
 // Output: one token per connection step: F<n> (full handshake; n = number of this connection), R<n> (resumed the
@@ -185,6 +186,13 @@ func evalResume(args []string) string {
 		case f[0] == "d" && len(f) == 3:
 			srv, _ := strconv.Atoi(f[1])
 			servers[srv&1].SessionTicketsDisabled = f[2] == "1"
+		case f[0] == "v" && len(f) == 3: // server MaxVersion (TLS mode)
+			srv, _ := strconv.Atoi(f[1])
+			v, err := strconv.ParseUint(f[2], 16, 16)
+			if err != nil {
+				return "bad-op"
+			}
+			servers[srv&1].MaxVersion = uint16(v)
 		case f[0] == "z" && len(f) == 2:
 			clientTicketsOff = f[1] == "1"
 		case f[0] == "c" && len(f) == 5:
@@ -325,6 +333,11 @@ func genC16(r *rng, tier string, emit func(string)) {
 		emit(fmt.Sprintf("resume %s 2 s:0:%s;c:0:%s:0:n;d:0:1;c:0:%s:0:n;d:0:0;c:0:%s:0:n", mode, s1, s1, s1, s1))
 		emit(fmt.Sprintf("resume %s 3 s:0:%s;c:0:%s:0:n;k:0:7+100;c:0:%s:0:n;k:0:8+7;c:0:%s:0:n;k:0:8;c:0:%s:0:n;c:0:%s:0:n", mode, s1, s1, s1, s1, s1, s1))
 		emit(fmt.Sprintf("resume %s 3 s:0:%s;a:0:4;c:0:%s:1:n;k:0:7+100;c:0:%s:1:n;k:0:7;c:0:%s:1:n;a:0:0;c:0:%s:1:n", mode, s1, s1, s1, s1, s1))
+		if mode == "tls" { // a ticket of one protocol version is never resumed on a connection of another
+			emit("resume tls 2 s:0:2f;c:0:2f:0:n;c:0:2f:0:n;v:0:0302;c:0:2f:0:n;c:0:2f:0:n;v:0:0303;c:0:2f:0:n;c:0:2f:0:n")
+			emit("resume tls 2 s:0:2f;v:0:0301;c:0:2f:0:n;c:0:2f:0:n;v:0:0303;c:0:2f:0:n;v:0:0302;c:0:2f:0:n;c:0:2f:0:n")
+			emit("resume tls 2 s:0:9c+2f;c:0:9c+2f:0:n;v:0:0302;c:0:9c+2f:0:n;c:0:9c+2f:0:n")
+		}
 		// an unverifiable client certificate accepted under a lax policy must not survive a stricter one
 		for _, lax := range []int{1, 2} {
 			for _, strict := range []int{3, 4} {
@@ -375,6 +388,10 @@ func genC16(r *rng, tier string, emit func(string)) {
 				}
 			case 6:
 				csu = suites[r.intn(len(suites))]
+			case 7:
+				if mode == "tls" {
+					steps = append(steps, fmt.Sprintf("v:%d:%s", r.intn(2), []string{"0301", "0302", "0303"}[r.intn(3)]))
+				}
 			}
 			tamper := "n"
 			if r.chance(1, 6) {
@@ -392,4 +409,5 @@ func genC16(r *rng, tier string, emit func(string)) {
 		}
 		emit(fmt.Sprintf("resume %s %d %s", mode, 1+r.intn(3), strings.Join(steps, ";")))
 	}
+	c16cGen(r, tier, emit) // byte-level session-state codec (sstate / sstatem) against Model.SessionState
 }
